@@ -30,6 +30,27 @@ def gen_growth_program(rng, gl):
     return prog, len(prog)
 
 
+def gen_copy_pos_program(rng, gl):
+    """a positioning pass whose rules copy slots (put_copy) and nothing is ever attached: positioning passes run after the slot indices
+    have been assigned, so whatever a copy brings along besides the glyph and its metrics shows in the returned segment"""
+    alpha = rng.sample(gl, rng.randrange(2, 5))
+    rules = []
+    for _ in range(rng.randrange(1, 4)):
+        ln = rng.randrange(2, 5)
+        pat = [set(rng.sample(alpha, rng.randrange(1, len(alpha) + 1))) for _ in range(ln)]
+        acts = []
+        for j in range(ln):
+            al = []
+            if rng.random() < 0.6:
+                al.append(('C', rng.choice([r for r in range(-j, ln - j) if r != 0])))
+            if rng.random() < 0.2: al.append(('X', rng.choice((-50, 30, 200))))
+            acts.append(al)
+        rules.append(dict(pre=0, pat=pat, acts=acts, con=None, ret=0))
+    prog = [dict(maxloop=2, rules=[dict(pre=0, pat=[set(alpha)], acts=[[('A', 600)]], con=None, ret=0)], alpha=alpha, feats=None),
+            dict(maxloop=rng.choice((1, 3)), rules=rules, alpha=alpha)]
+    return prog, 1
+
+
 def gen_program(rng, gl):
     """gl: glyph ids reachable from the keyboard"""
     if rng.random() < 0.12:
